@@ -361,6 +361,9 @@ def tables(rec):
             for times in ([3.0, 1.0, 2.0], [5.0], [2.0, 2.0, 0.5]):
                 for kind in ('individual', 'population', 'population+cov', 'prior', 'posterior', 'individual+regimen', 'population+regimen', 'posterior+regimen'):
                     yield (kind, n_samples, tuple(times))
+        for kind in ('individual+regimen-indefinite', 'population+regimen-indefinite', 'posterior+regimen-indefinite'):
+            for times in ((2.5, 1.0), (4.0, 0.5), (3.9,)):          # the last requested time is / is not a dosing time of the indefinite regimen 1.0, 2.5, 4.0, ...
+                yield (kind, 2, times)
         yield ('pam', 1500, (1.0, 0.5))
         yield ('pam', 4, (2.0,))
         yield ('pam-zero-middle', 40, (1.0,))
@@ -396,9 +399,9 @@ def tables(rec):
             return 'unexpected observables %s' % other, None
         return None, per_id
 
-    def check_regimen(df, ids, final_time):
+    def check_regimen(df, ids, final_time, n_events=3):
         """dose rows: for each listed ID (nan = once for all) the events  1.0 + 1.5 k <= final time  of the regimen (dose 2, duration 0.5)"""
-        want = [1.0 + 1.5 * k for k in range(3) if 1.0 + 1.5 * k <= final_time]
+        want = [1.0 + 1.5 * k for k in range(3 if n_events == 3 else 50) if 1.0 + 1.5 * k <= final_time]
         if 'Dose' not in df.columns:
             return None if not want else 'no dose columns although %d dose events fall before the final time' % len(want)
         dose = df[df['Dose'].notna()]
@@ -428,17 +431,19 @@ def tables(rec):
 
     def one(case):
         kind, n_samples, times = case
+        indefinite = kind.endswith('-indefinite')
+        kind = kind.replace('-indefinite', '')
         regimen = kind.endswith('+regimen')
         kind = kind.replace('+regimen', '')
         pm = real.PredictiveModel(Toy(), [real.GaussianErrorModel(), real.GaussianErrorModel()])
         if regimen:
-            pm.set_dosing_regimen(dose=2.0, start=1.0, duration=0.5, period=1.5, num=3)
+            pm.set_dosing_regimen(dose=2.0, start=1.0, duration=0.5, period=1.5, num=None if indefinite else 3)
         kw = {'include_regimen': True} if regimen else {}
         ids = list(range(1, n_samples + 1))
         if kind == 'individual':
             df = pm.sample([1.0, 1.5, SD, SD], list(times), n_samples=n_samples, seed=3, **kw)
             msg, _ = check_table(df, n_samples, times, par=(1.0, 1.0))
-            return msg or (check_regimen(df, ids, max(times)) if regimen else None)
+            return msg or (check_regimen(df, ids, max(times), 0 if indefinite else 3) if regimen else None)
         if kind.startswith('population'):
             if kind.endswith('cov'):
                 pop = real.ComposedPopulationModel([real.CovariatePopulationModel(real.GaussianModel(), real.LinearCovariateModel(n_cov=1)), real.PooledModel(n_dim=3)])
@@ -462,7 +467,7 @@ def tables(rec):
                 msg = 'sampled individuals have parameters %s, expected p0 ~ N(1, 0.1) and the pooled p1 = 1.5' % {k: (round(v[0], 3), round(v[1] + 0.5, 3)) for k, v in per_id.items()}
             if msg is None and n_samples > 1 and len(set(round(v[0], 2) for v in per_id.values())) < 2:
                 msg = 'all sampled individuals share one parameter value %s' % per_id
-            return msg or (check_regimen(df, ids, max(times)) if regimen else None)
+            return msg or (check_regimen(df, ids, max(times), 0 if indefinite else 3) if regimen else None)
         if kind == 'prior':
             prior = pints.ComposedLogPrior(pints.GaussianLogPrior(1.0, 0.01), pints.GaussianLogPrior(2.5, 0.01), pints.LogNormalLogPrior(np.log(SD), 0.01), pints.LogNormalLogPrior(np.log(SD), 0.01))
             df = real.PriorPredictiveModel(pm, prior).sample(list(times), n_samples=n_samples, seed=5)
@@ -489,7 +494,7 @@ def tables(rec):
                         return ('individual %s, sample %d: the individual-level parameter is the posterior draw (chain, draw) #%d but the population-level parameter is draw #%s: not one joint draw'
                                 % (ind, i_, int(round(t0)) // len(inds), round(t1, 3)))
                 if regimen:
-                    msg = check_regimen(df, None, max(times))
+                    msg = check_regimen(df, None, max(times), 0 if indefinite else 3)
                     if msg:
                         return msg
             return None
